@@ -62,11 +62,31 @@ type orderCfg struct {
 	NotCalled map[string]map[string]string `json:"not_called"` // caller -> "Type.method" candidate -> why it is not a target of a call by name
 }
 
+type sectionCfg struct {
+	A    string `json:"a"`    // opening event, "call:<receiver expression>.<Method>"
+	B    string `json:"b"`    // closing event (optional: the section is the event a alone)
+	Lock string `json:"lock"` // mutex expression, in the function's names
+	Mode string `json:"mode"` // "exclusive" | "shared" (at least shared)
+	Why  string `json:"why"`
+}
+
+type watchedCfg struct {
+	Type    string   `json:"type"`    // pkg.Type
+	Methods []string `json:"methods"` // every call site of these methods must be covered by a section
+	Why     string   `json:"why"`
+}
+
+type atomicCfg struct {
+	Watched  []watchedCfg            `json:"watched"`
+	Sections map[string][]sectionCfg `json:"sections"` // function -> its atomic sections
+}
+
 type config struct {
 	Packages  []string              `json:"packages"`
 	Summaries map[string]summaryCfg `json:"summaries"`
 	Exempt    map[string]string     `json:"exempt"`
 	Order     orderCfg              `json:"order"`
+	Atomic    atomicCfg             `json:"atomic"`
 }
 
 // ---------------------------------------------------------------------------
@@ -113,6 +133,8 @@ func (n *node) coq() string {
 	switch n.kind {
 	case "skip", "ucall", "xcall", "lcall", "mkclosure":
 		return "Skip"
+	case "mark":
+		return "Mark " + q(n.fn)
 	case "acq", "rel":
 		name := map[string]string{"acqW": "Lock", "acqR": "RLock", "acqP": "PileLock", "relW": "Unlock", "relR": "RUnlock", "relP": "PileUnlock"}[n.kind+n.mode]
 		if n.mode == "P" {
@@ -1307,6 +1329,64 @@ func (t *tr) expr(e ast.Expr, out *node) {
 // call appends what evaluating the receiver and the arguments does to out
 // and returns the node for the call itself (nil if it does nothing we track).
 func (t *tr) call(c *ast.CallExpr, out *node) *node {
+	self := t.callInner(c, out)
+	if m := t.markFor(c); m != nil {
+		if self == nil {
+			return m
+		}
+		return nSeq(m, self)
+	}
+	return self
+}
+
+// sectionFunc is the function whose declared atomic sections apply here: the
+// enclosing declared function or literal (inlined literals share t.fi).
+func (t *tr) sectionKey() string { return t.fi.key }
+
+// markFor: the event node for a call an atomic section is declared about;
+// also the place where call sites of watched methods are checked to be covered.
+func (t *tr) markFor(c *ast.CallExpr) *node {
+	sel, ok := c.Fun.(*ast.SelectorExpr)
+	if !ok {
+		return nil
+	}
+	recv, ok := t.lockName(sel.X)
+	if !ok {
+		recv = "?"
+	}
+	tag := "call:" + recv + "." + sel.Sel.Name
+	covered := false
+	for _, sc := range cfg.Atomic.Sections[t.sectionKey()] {
+		if sc.A == tag || sc.B == tag {
+			covered = true
+		}
+	}
+	ty := t.typeOf(sel.X)
+	if ty != "" && !strings.Contains(ty, ".") {
+		ty = t.fi.pkg.name + "." + ty
+	}
+	for _, w := range cfg.Atomic.Watched {
+		if w.Type != ty {
+			continue
+		}
+		if t.fi.recv != nil && t.fi.pkg.name+"."+t.fi.recv.typ == w.Type {
+			continue // the type's own methods
+		}
+		for _, m := range w.Methods {
+			if m == sel.Sel.Name && !covered {
+				fatal = append(fatal, fmt.Sprintf("%s: %s: call of %s.%s (%s) is not covered by an atomic section declared for this function in summaries.json (atomic/sections)",
+					t.fi.key, t.at(c.Pos()), w.Type, m, tag))
+			}
+		}
+	}
+	if covered {
+		t.fi.direct = true
+		return &node{kind: "mark", fn: tag, pos: t.at(c.Pos())}
+	}
+	return nil
+}
+
+func (t *tr) callInner(c *ast.CallExpr, out *node) *node {
 	// builtin panic
 	if id, ok := c.Fun.(*ast.Ident); ok && id.Name == "panic" && !t.fi.isLocal("panic") {
 		for _, a := range c.Args {
@@ -1777,20 +1857,7 @@ func parseItem(s string) (sign, mode, lock string, err error) {
 }
 
 func summaryCoq(fi *funcInfo) string {
-	sm, ok := cfg.Summaries[fi.key]
-	if !ok {
-		if pl := plowEff[fi.key]; len(pl) > 0 {
-			var out []string
-			for _, it := range pl {
-				out = append(out, fmt.Sprintf("((M%s, %s), 1%%Z)", it.mode, q(it.lock)))
-			}
-			return "(mkSum [] [] [] [" + strings.Join(out, "; ") + "] true)"
-		}
-		if mayPanic[fi.key] {
-			return "(mkSum [] [] [] [] true)"
-		}
-		return "neutral"
-	}
+	sm := cfg.Summaries[fi.key] // zero value if there is none
 	var items []string
 	for _, d := range sm.Delta {
 		sign, mode, lock, _ := parseItem(d)
@@ -1811,8 +1878,27 @@ func summaryCoq(fi *funcInfo) string {
 		}
 		return "[" + strings.Join(out, "; ") + "]"
 	}
+	var secs []string
+	for _, sc := range cfg.Atomic.Sections[fi.key] {
+		b := "None"
+		if sc.B != "" {
+			b = "(Some " + q(sc.B) + ")"
+		}
+		secs = append(secs, fmt.Sprintf("mkAsec %s %s %s %s", q(sc.A), b, q(sc.Lock), coqBool(sc.Mode == "shared")))
+	}
 	plow := plowEff[fi.key]
-	return "(mkSum [" + strings.Join(items, "; ") + "] [" + strings.Join(dirty, "; ") + "] " + held(sm.pre()) + " " + held(plow) + " " + coqBool(mayPanic[fi.key]) + ")"
+	if len(items) == 0 && len(dirty) == 0 && len(sm.pre()) == 0 && len(plow) == 0 && len(secs) == 0 && !mayPanic[fi.key] {
+		return "neutral"
+	}
+	return "(mkSum [" + strings.Join(items, "; ") + "] [" + strings.Join(dirty, "; ") + "] " + held(sm.pre()) + " " + held(plow) + " " + coqBool(mayPanic[fi.key]) + " [" + strings.Join(secs, "; ") + "])"
+}
+
+func atomicCount() int {
+	n := 0
+	for _, v := range cfg.Atomic.Sections {
+		n += len(v)
+	}
+	return n
 }
 
 func coqBool(b bool) string {
@@ -1908,6 +1994,53 @@ func main() {
 		}
 	}
 
+	// atomic sections: declared for existing functions, about events and locks that occur in them
+	for _, w := range cfg.Atomic.Watched {
+		if w.Why == "" || len(w.Methods) == 0 {
+			die("summaries.json: atomic/watched: %s needs methods and a justification", w.Type)
+		}
+	}
+	for key, secs := range cfg.Atomic.Sections {
+		fi, ok := allFuncs[key]
+		if !ok {
+			die("summaries.json: atomic/sections: function %s does not exist (stale entry)", key)
+		}
+		for _, sc := range secs {
+			if sc.Why == "" {
+				die("summaries.json: atomic/sections: %s has a section without justification", key)
+			}
+			if sc.Mode != "exclusive" && sc.Mode != "shared" {
+				die("summaries.json: atomic/sections: %s: mode must be \"exclusive\" or \"shared\"", key)
+			}
+			if sc.A == "" || sc.A == sc.B {
+				die("summaries.json: atomic/sections: %s: needs an opening event a, different from b", key)
+			}
+			seenLock := false
+			tags := map[string]bool{}
+			fi.tree.walk(func(n *node) {
+				if (n.kind == "acq" || n.kind == "rel") && n.mode != "P" && n.lock == sc.Lock {
+					seenLock = true
+				}
+				if n.kind == "mark" {
+					tags[n.fn] = true
+				}
+			})
+			if sm, ok := cfg.Summaries[key]; ok {
+				for _, it := range sm.pre() {
+					if it.lock == sc.Lock {
+						seenLock = true
+					}
+				}
+			}
+			if !seenLock {
+				die("summaries.json: atomic/sections: %s: the mutex %s is neither locked nor assumed held in this function (stale entry)", key, sc.Lock)
+			}
+			if !tags[sc.A] || (sc.B != "" && !tags[sc.B]) {
+				die("summaries.json: atomic/sections: %s: event %s / %s does not occur in this function (stale entry)", key, sc.A, sc.B)
+			}
+		}
+	}
+
 	// which functions matter
 	interesting := map[string]bool{}
 	for _, fi := range order {
@@ -1915,6 +2048,9 @@ func main() {
 			continue
 		}
 		if _, ok := cfg.Summaries[fi.key]; ok || fi.tree.has("acq", "rel", "pua") {
+			interesting[fi.key] = true
+		}
+		if len(cfg.Atomic.Sections[fi.key]) > 0 {
 			interesting[fi.key] = true
 		}
 	}
@@ -2095,6 +2231,23 @@ func main() {
 		data, _ := json.MarshalIndent(orderEdges, "", " ")
 		os.WriteFile(*orderOut, data, 0o644)
 	}
+	b.WriteString("(* declared atomic sections (summaries.json, atomic/sections) *)\nDefinition atomic_table : list (string * asec) := [\n")
+	var akeys []string
+	for k := range cfg.Atomic.Sections {
+		akeys = append(akeys, k)
+	}
+	sort.Strings(akeys)
+	var rows []string
+	for _, k := range akeys {
+		for _, sc := range cfg.Atomic.Sections[k] {
+			bb := "None"
+			if sc.B != "" {
+				bb = "(Some " + q(sc.B) + ")"
+			}
+			rows = append(rows, fmt.Sprintf("  (%s, mkAsec %s %s %s %s)", q(k), q(sc.A), bb, q(sc.Lock), coqBool(sc.Mode == "shared")))
+		}
+	}
+	b.WriteString(strings.Join(rows, ";\n") + "\n].\n\n")
 	b.WriteString("(* functions that must leave every lock as they found it *)\nDefinition entry_points : list string := [\n  " + strings.Join(eps, ";\n  ") + "\n].\n")
 	if *out == "" {
 		fmt.Print(b.String())
@@ -2114,6 +2267,7 @@ func main() {
 		"functions_with_declared_summary": len(cfg.Summaries), "functions_modelled_elsewhere": len(cfg.Exempt),
 		"entry_points": len(eps), "lock_classes": len(orderEdges.Classes), "lock_order_edges": len(orderEdges.Edges),
 		"justified_nestings": len(cfg.Order.SameClass), "functions_that_may_panic": len(mayPanic), "functions_with_panic_bound": len(plowEff),
+		"atomic_sections": atomicCount(), "functions_with_atomic_sections": len(cfg.Atomic.Sections),
 	}
 	data, _ := json.MarshalIndent(stats, "", " ")
 	if *statsOut != "" {
